@@ -97,7 +97,7 @@ func goroutineStates() map[int64]gstate {
 
 func isMutexWait(state string) bool {
 	switch state {
-	case "sync.Mutex.Lock", "sync.RWMutex.RLock", "sync.RWMutex.Lock", "semacquire":
+	case "sync.Mutex.Lock", "sync.RWMutex.RLock", "sync.RWMutex.Lock":
 		return true
 	}
 	return false
@@ -105,19 +105,24 @@ func isMutexWait(state string) bool {
 
 // allWaiting: in this snapshot no goroutine other than the scheduler's own can
 // make progress by itself (helper goroutines of the implementation included:
-// the key-enumeration producer, populate's consumer, the initial build).
+// the key-enumeration producer, populate's consumer, the initial build).  Only
+// wait states that need another goroutine to end count as waiting; runtime
+// waits that resolve by themselves ("semacquire" inside the allocator / GC,
+// "GC assist wait", "sleep", ...) do not.
 func allWaiting(states map[int64]gstate, self int64) bool {
 	for id, g := range states {
 		if id == self {
 			continue
 		}
 		switch g.state {
-		case "running", "runnable", "sleep", "preempted", "copystack", "GC assist wait", "GC assist marking":
-			return false
+		case "chan receive", "select", "sync.Mutex.Lock", "sync.RWMutex.RLock", "sync.RWMutex.Lock",
+			"finalizer wait", "cleanup wait", "sync.Cond.Wait":
 		case "syscall":
 			if !strings.HasPrefix(g.frame, "os/signal.") {
 				return false
 			}
+		default:
+			return false
 		}
 	}
 	return true
@@ -147,35 +152,50 @@ func (s *sched) drain() {
 // "blocked" and must be waiting for a mutex.
 func (s *sched) settle(t *testing.T) {
 	deadline := time.Now().Add(180 * time.Second)
+	nextSnap := 40
 	for spins := 0; ; spins++ {
 		s.drain()
-		states := goroutineStates()
-		if allWaiting(states, s.self) {
-			s.drain() // events sent before the snapshot
-			if len(s.ev) == 0 {
-				ok := true
-				for _, th := range s.thr {
-					th.isBlkd = false
-					if th.state == "running" {
-						if th.gid != 0 && isMutexWait(states[th.gid].state) {
-							th.isBlkd = true
-						} else {
-							ok = false
+		running := false
+		for _, th := range s.thr {
+			th.isBlkd = false
+			if th.state == "running" {
+				running = true
+			}
+		}
+		if !running {
+			// every thread has reported (parked or returned): they all wait for the scheduler
+			return
+		}
+		if spins >= nextSnap {
+			nextSnap = spins + 40 + spins/2
+			states := goroutineStates()
+			if allWaiting(states, s.self) {
+				s.drain() // events sent before the snapshot
+				if len(s.ev) == 0 {
+					ok := true
+					for _, th := range s.thr {
+						th.isBlkd = false
+						if th.state == "running" {
+							if th.gid != 0 && isMutexWait(states[th.gid].state) {
+								th.isBlkd = true
+							} else {
+								ok = false
+							}
 						}
 					}
-				}
-				if ok {
-					return
+					if ok {
+						return
+					}
 				}
 			}
 		}
 		if time.Now().After(deadline) {
 			t.Fatalf("scheduler: threads did not settle")
 		}
-		if spins < 20 {
+		if spins < 30 {
 			runtime.Gosched()
 		} else {
-			time.Sleep(50 * time.Microsecond)
+			time.Sleep(20 * time.Microsecond)
 		}
 	}
 }
@@ -336,6 +356,9 @@ func runConc(t *testing.T, u *universe, c concCfg, progs [][]sop, choose chooser
 		}
 		sc.settle(t)
 		sts := sc.statuses()
+		if dbgTrail != nil {
+			dbgTrail(len(steps), a, strings.Join(sts, " | "))
+		}
 		for _, x := range sts {
 			if x == "TBlocked" {
 				anyBlocked = true
@@ -378,6 +401,8 @@ func (u *universe) applyNoFault(ctx context.Context, s *store, o sop) string {
 	o.Fault = false
 	return u.applyRaw(ctx, s, o)
 }
+
+var dbgTrail func(depth int, act, sts string)
 
 // ---------- schedules ----------
 
@@ -430,6 +455,9 @@ func (d *dfs) choose(opts []string) int {
 	c := 0
 	if d.depth < len(d.prefix) {
 		c = d.prefix[d.depth]
+		if c >= len(opts) || (d.depth < len(d.nopts) && d.nopts[d.depth] != len(opts)) {
+			panic(fmt.Sprintf("schedule replay is not deterministic: depth %d prefix %v recorded options %v now %v", d.depth, d.prefix, d.nopts, opts))
+		}
 	} else {
 		d.prefix = append(d.prefix, 0)
 	}
@@ -532,9 +560,21 @@ func runConcurrent(t *testing.T, e *vh.Env, cs *vh.Cases, st *vh.Stats) {
 	budget := e.Pick(150, 1500)
 	for i, sm := range small {
 		d := &dfs{}
+		var prev []string
 		for k := 0; k < budget; k++ {
 			d.depth = 0
+			var cur []string
+			npre := len(d.prefix) - 1
+			dbgTrail = func(depth int, act, sts string) {
+				line := act + ": " + sts
+				cur = append(cur, line)
+				if depth < npre && depth < len(prev) && prev[depth] != line {
+					t.Fatalf("replay diverged at depth %d (prefix %v):\n  before: %s\n  now:    %s", depth, d.prefix, prev[depth], line)
+				}
+			}
 			add(runConc(t, u, sm.c, sm.progs, d.choose), fmt.Sprintf("conc/exhaustive/prog%d", i))
+			prev = cur
+			dbgTrail = nil
 			n++
 			if !d.next() {
 				st.Count(fmt.Sprintf("conc/exhaustive/prog%d-complete", i))
